@@ -2,7 +2,7 @@
     - lexical: [parse_str_body_escape] (unescape after escape is the identity, for every byte string),
       [int_digits_print_N], [parse_number_print_int], [span_num_app], whitespace skipping;
     - structure: [rt_all] (by induction on the value, the parser run with any sufficient fuel and depth),
-      [json_parse_print] (fuel = text length + 1), [dedent_id] / [dedent_json_print], [json_from_str_print];
+      [json_parse_print] (fuel = 2 * text length + 2, enough for any text), [dedent_id] / [dedent_json_print], [json_from_str_print];
     - composition with layer 1 (Serde/SerdeGeneric_proofs.v): [json_typed_roundtrip].
     The float printer/parser pair is a pair of section variables; the only thing assumed about it is
     [float_pair_ok] for the doubles that occur in the value at hand. *)
@@ -825,7 +825,7 @@ Section ParseRT.
   Proof.
     intros v Hok Hfl. unfold json_parse_text. apply json_parse_print_fuel; [exact Hok | exact Hfl |].
     pose proof Hok as Hok'. unfold sval_okb in Hok'. apply andb_true_iff in Hok'. destruct Hok' as [Hwf _].
-    pose proof (fuel_le_length v 0%nat Hwf Hfl). unfold json_print. lia.
+    pose proof (fuel_le_length v 0%nat Hwf Hfl). unfold json_print in *. lia.
   Qed.
 
   (** ** [dedent] leaves printed text alone *)
@@ -1203,3 +1203,59 @@ Section EndToEnd.
     split; apply de_ser; assumption.
   Qed.
 End EndToEnd.
+
+Local Open Scope N_scope.
+(** * Every sequence of Unicode scalar values, encoded in UTF-8, is a string the theorems cover *)
+
+Ltac ncmp :=
+  repeat match goal with
+         | |- context [?x <? ?y] => destruct (N.ltb_spec x y); try lia
+         | |- context [?x <=? ?y] => destruct (N.leb_spec x y); try lia
+         | |- context [?x =? ?y] => destruct (N.eqb_spec x y); try lia
+         end.
+
+Lemma valid1 : forall a s, a < 128 -> utf8_validb (String (chr a) s) = utf8_validb s.
+Proof. intros a s H. cbn [utf8_validb]. rewrite code_chr by lia. ncmp. reflexivity. Qed.
+
+Lemma valid2 : forall a b s, 194 <= a <= 223 -> 128 <= b <= 191 ->
+  utf8_validb (String (chr a) (String (chr b) s)) = utf8_validb s.
+Proof.
+  intros a b s Ha Hb. cbn [utf8_validb]. unfold cont. rewrite !code_chr by lia. ncmp. reflexivity.
+Qed.
+
+Lemma valid3 : forall a b c s, 224 <= a <= 239 -> 128 <= b <= 191 -> 128 <= c <= 191 ->
+  (a = 224 -> 160 <= b) -> (a = 237 -> b <= 159) ->
+  utf8_validb (String (chr a) (String (chr b) (String (chr c) s))) = utf8_validb s.
+Proof.
+  intros a b c s Ha Hb Hc H1 H2. cbn [utf8_validb]. unfold cont, in_range. rewrite !code_chr by lia.
+  ncmp; reflexivity.
+Qed.
+
+Lemma valid4 : forall a b c d s, 240 <= a <= 244 -> 128 <= b <= 191 -> 128 <= c <= 191 -> 128 <= d <= 191 ->
+  (a = 240 -> 144 <= b) -> (a = 244 -> b <= 143) ->
+  utf8_validb (String (chr a) (String (chr b) (String (chr c) (String (chr d) s)))) = utf8_validb s.
+Proof.
+  intros a b c d s Ha Hb Hc Hd H1 H2. cbn [utf8_validb]. unfold cont, in_range. rewrite !code_chr by lia.
+  ncmp; reflexivity.
+Qed.
+
+#[local] Ltac Zify.zify_post_hook ::= Z.to_euclidean_division_equations.
+
+Lemma utf8_encode_valid : forall n s, scalar_value n -> utf8_validb (utf8_encode n ++ s) = utf8_validb s.
+Proof.
+  intros n s [Hlt Hns]. unfold utf8_encode.
+  destruct (N.ltb_spec n 128).
+  { cbn [str1 append]. apply valid1. assumption. }
+  destruct (N.ltb_spec n 2048).
+  { cbn [str1 append]. apply valid2; lia. }
+  destruct (N.ltb_spec n 65536).
+  { cbn [str1 append]. apply valid3; lia. }
+  cbn [str1 append]. apply valid4; lia.
+Qed.
+
+
+Theorem utf8_of_scalars_valid : forall l, Forall scalar_value l -> utf8_validb (utf8_of_scalars l) = true.
+Proof.
+  induction l as [|n l IH]; intros H; [reflexivity|]. inversion H; subst.
+  cbn [utf8_of_scalars]. rewrite utf8_encode_valid by assumption. apply IH. assumption.
+Qed.
